@@ -1032,6 +1032,12 @@ class list_t(object):
             def __next__(self):
                 if self.idx >= int(self.model.size.get_val()):
                     raise StopIteration()
+                elif self.l.is_enum:
+                    # Enum elements read back as enumerators, as with indexing
+                    ei : EnumInfo = self.l.t.enum_i
+                    v = ei.v2e(self.model.field_l[self.idx].get_val())
+                    self.idx += 1
+                    return v
                 else:
                     # The model's view is always masked 2's complement
                     v = int(self.model.field_l[self.idx].get_val())
